@@ -961,6 +961,8 @@ def run_c11(o, tier, rng, prep):
             if mate is None:
                 continue
             n = int(mate)
+            if n == 0:
+                o.violation("input", "engine reports `score mate 0`: %r on %s" % (d["infos"][j], cmd), {"case": cmd, "info": d["infos"][j]})
             last_of_depth = (idx + 1 == len(per)) or per[idx + 1][1] != depth
             if n > 0 and n <= 3:
                 q.append(("claim+", ri, (l, n), "mate\t%s\t%d" % (cmd, n)))
@@ -1301,6 +1303,8 @@ def run_c03(o, tier, rng, prep):
         eng.close()
     o.distinct += chains
     o.oblige("exactly one legal, well-formed bestmove per go, along go chains, on the real binary (%d go commands)" % o.evaluations, ok)
+    ok3 = corner_capture_sessions(o, tier, rng)
+    o.oblige("go after a move list that captures an unmoved rook on its corner (castling rights of the text applier)", ok3)
     ok2 = go_chain_corpus(o, tier, rng)
     o.oblige("go chains through promotion, castling and en passant (fields inherited from the previous answer)", ok2)
     session_model_corr(o, tier, rng)
@@ -1319,6 +1323,43 @@ GO_CHAIN_FENS = [
     "4k3/8/8/8/1p6/8/P7/4K3 w - - 0 1",
     "4k3/p7/8/1P6/8/8/8/4K3 b - - 0 1",
 ]
+
+
+def corner_capture_sessions(o, tier, rng):
+    """position ... moves <capture of a rook on its home corner>, then go: the answer must be legal
+    (a stale castling right in the text applier shows up as castling without a rook)"""
+    import blackbox
+    cc = gens.corner_capture_chains(rng)
+    legal = set(f for f, _, _ in gens.filter_legal([f for f, _ in cc]))
+    cc = [(f, ch) for f, ch in cc if f in legal]
+    # plus a hand-made position in which castling is the natural reply
+    cc.append(("r3kbnr/p1pppppp/8/8/8/6P1/PPPPPPBP/RNBQK1NR w KQkq - 0 1", ["g2a8"]))
+    cc.append(("rnbqk1nr/ppppppbp/6p1/8/8/8/P1PPPPPP/R3KBNR b KQkq - 0 1", ["g7a1"]))
+    rng.shuffle(cc)
+    cc = cc[: (40 if tier == "quick" else 400)] + cc[-2:]
+    ok = True
+    eng = blackbox.Engine(V.BINARY)
+    try:
+        eng.handshake()
+        for fen, chain in cc:
+            cmd = "position fen %s moves %s" % (fen, " ".join(chain))
+            after = legal_after([cmd])
+            if not after or not after[0].startswith("pos Ok"):
+                continue
+            lm = root_legal_moves([proj_to_fen(after[0])])[0]
+            if not lm:
+                continue
+            for go in ("go", "go wtime 150 btime 150 movestogo 1"):
+                eng.send(cmd)
+                eng.send(go)
+                lines = eng.read_until(lambda l: l.startswith("bestmove"), timeout=10)
+                o.evaluations += 1
+                if lines[-1] is None or not judge_bestmove(o, "%s | %s" % (cmd, go), lines[-1], lm, False):
+                    ok = False
+                hist_add(o, "corner-capture sessions judged")
+    finally:
+        eng.close()
+    return ok
 
 
 def go_chain_corpus(o, tier, rng):
